@@ -396,7 +396,14 @@ class Rel:
             out.append((x[1], False))
             out.append((x[2], False))
         if x[0] == "bin" and x[1] == "Sub":
-            out.append((x[2], False))           # unsigned: a - b <= a
+            strict = False
+            c = x[3]
+            if c[0] == "const" and isinstance(c[2], int) and c[2] > 0:
+                # a - c < a when a >= 1 is known (unsigned, c > 0)
+                for a in self.w:
+                    if a[0] == "lt" and a[2] == x[2] and a[1][0] == "const" and isinstance(a[1][2], int) and a[1][2] >= 0:
+                        strict = True
+            out.append((x[2], strict))           # unsigned: a - b <= a
         if x[0] == "bin" and x[1] in ("Div", "Shr"):
             out.append((x[2], False))
         if x[0] == "bin" and x[1] == "Rem":
